@@ -22,5 +22,6 @@ CONSTANTS
   GenPrint = FALSE
   Verbose = FALSE
 INVARIANT Accepted
+INVARIANT Refined
 INVARIANT Progress
 CHECK_DEADLOCK FALSE
